@@ -83,8 +83,8 @@ func (st c17Set) account() [20]byte {
 
 // deviations of the raw verification script from the canonical script of the
 // same keys, in a fixed priority order (first = the class named in a key)
-var c17DevOrder = []string{"eth-key", "multisig-unsorted", "p256-uncompressed-key", "p256-labelled-key",
-	"ec-uncompressed-key", "key-trailing-bytes", "nonminimal-push", "multisig-n-as-bytes"}
+var c17DevOrder = []string{"multisig-unsorted", "p256-uncompressed-key", "p256-labelled-key",
+	"ec-uncompressed-key", "key-trailing-bytes", "nonminimal-push", "multisig-n-as-bytes", "eth-key"}
 
 func (st c17Set) deviations() map[string]bool {
 	d := map[string]bool{}
